@@ -198,6 +198,19 @@ impl Scenario for Chain {
                     continue;
                 }
             }
+            // ... and a damaged JSONB row handed to a path selection (its stored bytes cut short): the selection fails
+            // part-way through the document, on a selector that is kept for the rows after it
+            if let Op::Select { v, api, .. } = &op {
+                if !api.accepts_text() && r.chance(ocfg.fail_pct, 150) {
+                    let b = mval::encode(&cur[*v]);
+                    if b.len() > 9 {
+                        let cut = r.urange(1, 9);
+                        let bad = Some((*v, b[..b.len() - cut].to_vec()));
+                        steps.push(ChainStep { op, dst: vec![], text_regs: vec![], bad_text: bad, warm: 0 });
+                        continue;
+                    }
+                }
+            }
             let results: Vec<MVal> = match model::apply(&op, &model_inputs(&cur, &text_regs)) {
                 ModelOut::Wrote(Ok(v)) => v,
                 ModelOut::Returned(Some(v)) => v,
@@ -270,7 +283,11 @@ impl Scenario for Chain {
                     args[*reg] = bytes.clone();
                     let mut buf = Vec::new();
                     let mut offs = Vec::new();
-                    let _ = guard(|| ops::call(op, &args, &mregs, &mut buf, &mut offs));
+                    let reused = selectors.get(&sel_key(op)).filter(|_| matches!(op, Op::Select { api, .. } if !api.accepts_text()));
+                    if reused.is_some() {
+                        stats.inc("probe/damaged_row_on_kept_selector");
+                    }
+                    let _ = guard(|| ops::call_with(op, &args, &mregs, &mut buf, &mut offs, reused));
                 }
                 continue;
             }
@@ -598,6 +615,7 @@ impl Scenario for Chain {
             "probe/text_argument_step",
             "probe/shared_buffer_history",
             "probe/unparsable_text_step",
+            "probe/damaged_row_on_kept_selector",
             "probe/compiled_selector_reused",
         ]
     }
